@@ -28,7 +28,7 @@ Record job := mkJob {
 
 Inductive reason := Loadshed | Shutdown | RateLimited | TtlExpired.
 Inductive hook := HStarted | HDraining | HStopped.
-Inductive rkind := RQueuer | RRoundRobin | RCustom.
+Inductive rkind := RQueuer | RRoundRobin | RCustom | RKeyPersistent | RSticky.
 Inductive qkind := QDefault | QPrio.
 Inductive dmode := Newest | Oldest.
 Inductive dstate := NotDraining | Draining | Drained.
@@ -38,7 +38,9 @@ Record fcfg := mkFcfg {
   c_queue : qkind;
   c_discard : option (N * dmode);          (* DiscardSettings::Static { limit, mode } *)
   c_rate : option (cfg * option N);        (* RateLimitedRouter with a leaky bucket: config, initial *)
-  c_n0 : N                                 (* num_initial_workers *)
+  c_n0 : N;                                (* num_initial_workers *)
+  c_hash : list (N * list N)               (* hash_with_max(key, n) for n = 1, 2, ... per job key: the
+                                              hash is data of the scenario (KeyPersistentRouting) *)
 }.
 
 (* what can be observed *)
@@ -121,7 +123,18 @@ Fixpoint set_assoc (i v : N) (l : list (N * N)) : list (N * N) :=
   end.
 
 Definition factory_queueing (c : fcfg) : bool :=
-  match c_router c with RQueuer => true | _ => false end.
+  match c_router c with RQueuer | RSticky => true | _ => false end.
+
+(* the job key as the routers see it: everything but the id (the harness carries the id in the
+   message, the key is (rk, prio, disc) packed) *)
+Definition pk (j : job) : N := jrk j * 65536 + jprio j * 256 + (if jdisc j then 1 else 0).
+Definition same_key (a b : job) : bool := pk a =? pk b.
+
+Fixpoint assoc_l (i : N) (l : list (N * list N)) : list N :=
+  match l with [] => [] | (k, v) :: r => if k =? i then v else assoc_l i r end.
+(* hash_with_max(key, n) *)
+Definition kp_hash (c : fcfg) (j : job) (n : N) : N :=
+  nth (N.to_nat (n - 1)) (assoc_l (pk j) (c_hash c)) 0.
 
 (* the workers' copy of the discard settings *)
 Definition wsettings (c : fcfg) : option (N * dmode) :=
@@ -243,6 +256,12 @@ Fixpoint pop_avail (p : list worker) (av inq : list N) : option N * list N * lis
 Definition hint_avail (p : list worker) (hint : option N) : bool :=
   match hint with Some h => avail_in p h | None => false end.
 
+(* is_processing_key / has_pending_key *)
+Definition processing (w : worker) (j : job) : bool :=
+  match w_cur w with Some x => same_key x j | None => false end.
+Definition has_pending (w : worker) (j : job) : bool :=
+  processing w j || existsb (fun x => same_key x j) (w_q w).
+
 (* Router::choose_target_worker *)
 Definition choose (c : fcfg) (rs : rstate) (j : job) (size : N) (hint : option N)
                   (p : list worker) : rstate * option N :=
@@ -258,12 +277,32 @@ Definition choose (c : fcfg) (rs : rstate) (j : job) (size : N) (hint : option N
   | RCustom =>
     if size =? 0 then (rs, None)
     else let key := jrk j mod size in (rs, if in_pool p key then Some key else None)
+  | RKeyPersistent =>
+    match find (fun w => has_pending w j) p with
+    | Some w => (rs, Some (w_id w))
+    | None =>
+      match (match hint with Some h => if in_pool p h then Some h else None | None => None end) with
+      | Some h => (rs, Some h)
+      | None => if size =? 0 then (rs, None)
+                else let key := kp_hash c j size in (rs, if in_pool p key then Some key else None)
+      end
+    end
+  | RSticky =>
+    if (match hint with
+        | Some h => match find_w p h with Some w => processing w j | None => false end
+        | None => false end) then (rs, hint)
+    else match find (fun w => processing w j) p with
+         | Some w => (rs, Some (w_id w))
+         | None =>
+           if hint_avail p hint then (rs, hint)
+           else let '(r, av, inq) := pop_avail p (r_avail rs) (r_inq rs) in (mkR av inq (r_last rs), r)
+         end
   end.
 
 (* Router::on_worker_availability_change *)
 Definition on_change (c : fcfg) (rs : rstate) (i : N) (available : bool) : rstate :=
   match c_router c with
-  | RQueuer =>
+  | RQueuer | RSticky =>
     if available then
       if mem i (r_inq rs) then rs else mkR (r_avail rs ++ [i]) (i :: r_inq rs) (r_last rs)
     else mkR (r_avail rs) (remove_n i (r_inq rs)) (r_last rs)
@@ -741,10 +780,23 @@ Fixpoint qb_scan (c : fcfg) (L : N) (jobs : list job) (slots : list N) (pre : li
     && qb_scan c L jobs slots pre' r
   end.
 
+(* StickyQueuerRouting is factory-queueing, but a job whose key is being processed waits in that
+   worker's own queue, to which (by design, see FactoryArguments::discard_settings) the limit does
+   not apply; from outside the two kinds of waiting jobs cannot be told apart, so for this router
+   the clause uses what the factory itself reports: GetQueueDepth <= L whenever every job is
+   discardable (default queue) *)
 Definition ck_queue_bound (c : fcfg) (ws : list window) : bool :=
   match c_discard c with
   | None => true
-  | Some (L, _) => qb_scan c L (jobs_of (ops_of ws)) (dedup (start_slots (evs_of ws))) [] ws
+  | Some (L, _) =>
+    match c_router c with
+    | RSticky =>
+      forallb (fun e => match e with
+                        | EQuery (Some d) _ _ _ => match c_queue c with QDefault => d <=? L | QPrio => true end
+                        | _ => true
+                        end) (evs_of ws)
+    | _ => qb_scan c L (jobs_of (ops_of ws)) (dedup (start_slots (evs_of ws))) [] ws
+    end
   end.
 
 Fixpoint pos_of (id : N) (jobs : list job) : N :=
@@ -781,7 +833,7 @@ Definition ck_shed_identity (c : fcfg) (ws : list window) : bool :=
   | Some (_, Newest) => forallb (fun id => negb (existsb (is_accept id) evs)) (shed_ids evs)
   | Some (_, Oldest) =>
     forallb (fun id => existsb (is_accept id) evs) (shed_ids evs)
-    && (if factory_queueing c then si_scan c (jobs_of (ops_of ws)) [] ws else true)
+    && (match c_router c with RQueuer => si_scan c (jobs_of (ops_of ws)) [] ws | _ => true end)
   end.
 
 Definition ck_reject_reported (c : fcfg) (ws : list window) : bool :=
